@@ -94,7 +94,11 @@ def decoder_consumers():
     with contextlib.redirect_stdout(io.StringIO()):
         pol = E.PolarCodeEncoder(4, 8)
         polz = E.PolarCodeEncoder(4, 8, frozen_zeros=True)
+        pol16 = E.PolarCodeEncoder(8, 16)
     mk("SuccessiveCancellationDecoder/Polar(8,4)", pol, D.SuccessiveCancellationDecoder(pol), "SuccessiveCancellationDecoder")
+    # four check-node levels: weak LLRs (large noise variance) become very small inside the decoder; the decision must still follow their sign
+    mk("SuccessiveCancellationDecoder/Polar(16,8)", pol16, D.SuccessiveCancellationDecoder(pol16), "SuccessiveCancellationDecoder")
+    mk("SuccessiveCancellationDecoder(min_sum)/Polar(16,8)", pol16, D.SuccessiveCancellationDecoder(pol16, regime="min_sum"), "SuccessiveCancellationDecoder")
     mk("BeliefPropagationPolarDecoder/Polar(8,4)", polz, D.BeliefPropagationPolarDecoder(polz), "BeliefPropagationPolarDecoder")
     rm = E.ReedMullerCodeEncoder(1, 3)
     mk("ReedMullerDecoder(soft)/RM(1,3)", rm, D.ReedMullerDecoder(rm, input_type="soft"), "ReedMullerDecoder")
@@ -170,7 +174,7 @@ def run(run):
                     expm.append([x for j in range(b) for x in msgs[(i + j) % len(cws)]])
                 if s.kind == "oqpsk":
                     continue_rows = True
-                for nv in ([1.0] if quick else nvs):
+                for nv in ([1.0, 1e3] if quick else nvs):
                     if s.kind == "oqpsk":
                         # offset QPSK delays the quadrature stream: its soft output is not a codeword image; undo the delay first
                         llr, _ = None, None
